@@ -34,6 +34,9 @@ EXPLANATION = (
     '(lineno, colno) order, with start/end = line_table[lineno-1]+colno against a line table that uses the line terminators the lexer counts, '
     'and replaces exactly raw[start:end].  R4: a node is recorded as modified/to-sort only where its argument list is changed, once, and only '
     'Array/Function nodes; sorting permutes only the StringNode arguments; every removal and candidate choice passes affects_no_other_targets.  '
+    'R4 also (splices of one round are disjoint - the general form of "once"): where one command can record two different nodes (two recording statements on a feasible path, '
+    'or one recording statement on a loop that re-binds the recorded variable) the pair is excluded by a boolean flag the function sets, or apply_changes drops the nodes lying inside '
+    'another recorded node of the same file (filter `not any(<y.start <= x.start and x.end <= y.end, x is not y, same file>)` read symbolically; another form ends undecided).  '
     'R5: every StringNode built from a Python value outside the parser switches the escape decoding off or pre-encodes the value.  '
     'R6: the pattern process_default_options builds per key is <start anchor or nothing> + key + `=`..., and every function that applies it '
     '(followed from rewriter_func_kwargs and the remove_regex dispatch through the callback helper) uses re.match/fullmatch or a ^-anchored search.  '
